@@ -42,7 +42,55 @@ FIRST_PROBES = ['```&copy\nx\n```\n', 'foo\n<div>\nbar\n', 'Foo\n---\n', '[r]: /
 CHECK_RENDERERS = ['HtmlRenderer', 'MarkdownRenderer', 'LaTeXRenderer', 'AstRenderer']
 
 
+_swap_cache = {}
+
+
+def swap_renderer(tokname):
+    """A user-defined renderer of the kind the documentation describes: it replaces one block token class by a subclass of its
+    own (remove_token + extras), here one that never interrupts a paragraph.  The token list keeps its length."""
+    if tokname not in _swap_cache:
+        from mistletoe import block_token
+        from mistletoe.base_renderer import BaseRenderer
+        X = getattr(block_token, tokname)
+        Never = type(tokname, (X,), {'check_interrupts_paragraph': classmethod(lambda cls, lines: False)})
+
+        class SwapRenderer(BaseRenderer):       # BaseRenderer adds no token of its own: the list keeps its length
+            def __init__(self, **kw):
+                block_token.remove_token(X)
+                super().__init__(Never, **kw)
+
+            # BaseRenderer is abstract about leaves; enough structure to tell a paragraph from the swapped block
+            def render_raw_text(self, token):
+                return token.content
+
+            def render_line_break(self, token):
+                return '\n'
+
+            def render_paragraph(self, token):
+                return '<p>' + self.render_inner(token) + '</p>'
+
+            def render_table(self, token):
+                return '<table>' + self.render_inner(token) + '</table>'
+
+            def render_quote(self, token):
+                return '<q>' + self.render_inner(token) + '</q>'
+
+            def render_thematic_break(self, token):
+                return '<hr>'
+
+            def render_inline_code(self, token):
+                return '<code>' + self.render_inner(token) + '</code>'
+        _swap_cache[tokname] = SwapRenderer
+    return _swap_cache[tokname]
+
+
+SWAPS = ['Table', 'Quote', 'ThematicBreak']
+SWAP_PROBES = ['foo\n| a |\n|---|\n| b |\n', 'foo\n> q\n', 'foo\n***\n']
+
+
 def rclass(name):
+    if name.startswith('Swap:'):
+        return swap_renderer(name[5:]), {}
     if name.endswith(':nohtml'):
         return impl.renderer_class('HtmlRenderer'), {'process_html_tokens': False}
     return impl.renderer_class(name), {}
@@ -64,6 +112,20 @@ def observe(first=None, first_renderer=None):
     import mistletoe
     from mistletoe.ast_renderer import get_ast
     res = {}
+
+    def swap_probes():
+        # user-defined renderers that swap a token class (custom tokens are part of the property)
+        for tok in SWAPS:
+            for d in SWAP_PROBES:
+                R, kw = rclass('Swap:' + tok)
+                try:
+                    with R(**kw) as r:
+                        res['Swap:%s|%s' % (tok, d)] = r.render(mistletoe.Document(d))
+                except Exception as e:
+                    res['Swap:%s|%s' % (tok, d)] = 'raised ' + type(e).__name__
+    if first is None or first == 'SWAP':
+        swap_probes()           # first of all: this is what the baseline of a fresh interpreter records for them
+        first = None
     probes = PROBES if first is None else [first] + [p for p in PROBES if p != first]
     for d in probes:
         rns = CHECK_RENDERERS
@@ -160,6 +222,15 @@ def run_history(history, check_every_block=True, baseline=None, first=None, firs
     snaps = []
     problems = []
     for bi, blk in enumerate(history):
+        if blk['renderer'] == 'bare':
+            # parses with no renderer active (the default token lists)
+            for op in blk['body']:
+                try:
+                    mistletoe.Document(op[1])
+                except Exception as e:
+                    problems.append('block %d (bare) raised %s: %s' % (bi, type(e).__name__, e))
+            snaps.append(snapshot())
+            continue
         R, kw = rclass(blk['renderer'])
         try:
             with R(**kw) as r:
@@ -187,7 +258,7 @@ def run_history(history, check_every_block=True, baseline=None, first=None, firs
     if baseline is not None:
         obs = observe(first, first_renderer)
         for k, v in baseline['observe'].items():
-            if obs.get(k) != v:
+            if k in obs and obs.get(k) != v:
                 problems.append('after the history, %s of %r gives %r; a fresh interpreter gives %r' % (
                     k.split('|', 1)[0], k.split('|', 1)[1], (obs.get(k) or '')[:200], v[:200]))
                 break
@@ -208,7 +279,10 @@ def baseline():
 def check_witness(w):
     raising = any(op[0] == 'raise' for b in w['history'] for op in b['body'])
     firsts = [(f, r) for f in FIRST_PROBES for r in ('AstRenderer', 'HtmlRenderer')]
-    for i, (first, fr) in enumerate(firsts if (raising or w.get('all_firsts')) else firsts[(len(json.dumps(w['history'])) % 4) * 2:][:2]):
+    chosen = firsts if (raising or w.get('all_firsts')) else firsts[(len(json.dumps(w['history'])) % 4) * 2:][:2]
+    if any(b['renderer'] == 'bare' or b['renderer'].startswith('Swap:') for b in w['history']):
+        chosen = [('SWAP', None)] + chosen[:1]      # the swapping renderers are the first thing used after the history
+    for i, (first, fr) in enumerate(chosen):
         with impl.time_limit(120):
             snaps, problems = run_history(w['history'], baseline=baseline(), first=first, first_renderer=fr)
         if problems:
@@ -229,6 +303,10 @@ def block_alphabet(ctx):
     blocks = []
     for rn in (RENDERERS if ctx.thorough else ['HtmlRenderer', 'MarkdownRenderer', 'LaTeXRenderer', 'AstRenderer', 'XWiki20Renderer']):
         blocks.append({'renderer': rn, 'body': [['render', 'hello `code` world\n'], ['render', 'a\nb\n\n> c\n> d\n\n- e\n  f\n\n| a |\n|---|\n']]})
+    blocks.append({'renderer': 'bare', 'body': [['render', 'first line\nsecond line\n\n> q\n\n- i\n']]})
+    blocks.append({'renderer': 'bare', 'body': [['render', 'x `y` z\n'], ['render', '| a |\n|---|\n']]})
+    for tok in SWAPS:
+        blocks.append({'renderer': 'Swap:' + tok, 'body': [['render', SWAP_PROBES[0]], ['render', 'a\nb\n\n> c\n']]})
     for rn in (['HtmlRenderer', 'MarkdownRenderer', 'AstRenderer'] if not ctx.thorough else RENDERERS[:6]):
         for kind, phases in (('block', ['start', 'read', 'init']), ('span', ['find', 'init'])):
             for phase in phases:
@@ -250,6 +328,11 @@ def histories(ctx):
         hs.append([rng.choice(plain), rng.choice(raising), rng.choice(raising)])
     for _ in range(ctx.budget(6, 60)):
         hs.append([rng.choice(alpha) for _ in range(rng.randint(5, 25))])
+    # a parse outside every renderer before a renderer is used for the first time, and user-defined swapping renderers
+    special = [b for b in alpha if b['renderer'] == 'bare' or b['renderer'].startswith('Swap:')]
+    for a in special:
+        for b in special + plain[:3]:
+            hs.append([a, b])
     return hs
 
 
@@ -273,6 +356,8 @@ def units(ctx):
     ctx._c11_histories = hs
     reqs, exp = [], []
     for h in hs:
+        if any(b['renderer'] == 'bare' or b['renderer'].startswith('Swap:') for b in h):
+            continue        # the state-machine model knows the bundled renderers; these histories are explored on the implementation
         snaps, _ = run_history(h, baseline=None)
         reqs.append({'op': 'state.run', 'history': to_model_history(h)})
         exp.append([{k: s[k] for k in ('block', 'span', 'parseSetext', 'charrefStd')} | {'codeMatchesClean': True} for s in snaps])
@@ -280,7 +365,7 @@ def units(ctx):
         # observation checks) is that the next scan does not see them - so the snapshot compares the
         # fields whose *value* must be restored.
     model = driver_batch(reqs)
-    for h, e, m in zip(hs, exp, model):
+    for h, e, m in zip([h for h in hs if not any(b['renderer'] == 'bare' or b['renderer'].startswith('Swap:') for b in h)], exp, model):
         ctx.compare('state', {'history': h}, m, e, kind='raising' if any(op[0] == 'raise' for b in h for op in b['body']) else 'plain')
 
 
